@@ -494,6 +494,16 @@ Theorem c04_signed_oracle_omission : forall their server u t mu mt,
     forallb (fun r => negb (is_pseudo r) && negb (is_glue_for (m_ns mt) r)) left_out = true.
 Proof. exact signed_omission. Qed.
 
+(* tie to C02's oracle: in a response accepted by wf_response (at most one TSIG record, and only as the last record) the
+   additional-section body that remains after setting the trailing TSIG record aside contains no TSIG record: for a pair
+   of well-formed responses the omission clause compares exactly the non-TSIG records *)
+Theorem c04_signed_oracle_tsig_set_aside : forall b m body ts,
+  wf_response b = true -> decode_msg b = Some m -> split_tsig (m_ar m) = (body, ts) ->
+  forallb (fun r => negb (is_tsig r)) body = true.
+Proof.
+  intros b m body ts Hwf Hd. unfold wf_response in Hwf. rewrite Hd in Hwf. exact (split_tsig_complete m body ts Hwf).
+Qed.
+
 (* Non-vacuity, on hand-written octets.  Question b.a. ; key k. (hmac-sha256, 32-octet MAC [m]). *)
 Definition sx_hdr (f2 an ar : N) : list N := [0;7;f2;0; 0;1; 0;an; 0;0; 0;ar]%N.
 Definition sx_q (ty : N) : list N := [1;98;1;97;0; 0;ty; 0;1]%N.
@@ -553,3 +563,4 @@ Print Assumptions c04_signed_oracle_conservative.
 Print Assumptions c04_signed_oracle_sizes_and_identity.
 Print Assumptions c04_signed_oracle_tc_shape.
 Print Assumptions c04_signed_oracle_omission.
+Print Assumptions c04_signed_oracle_tsig_set_aside.
